@@ -1286,8 +1286,31 @@ class SymSeq:
                 return p
         return -1
 
+    def m_rfind(self, sub, start=0, end=None):
+        self._need_plain("rfind")
+        if self.kind == "str" and not self.all_ascii():
+            raise Unsupported("rfind on non-ascii text")
+        s = self._coerce(sub) if not isinstance(sub, int) else SymSeq("bytes", [sub])
+        s._need_plain("rfind")
+        n, m = len(self.items), len(s.items)
+        if isinstance(start, SymInt) or isinstance(end, SymInt):
+            raise Unsupported("rfind with symbolic bounds")
+        stop = n if end is None else min(end, n)
+        if start < 0 or (end is not None and end < 0):
+            raise Unsupported("rfind with negative bounds")
+        for p in range(stop - m, start - 1, -1):
+            if bool(b_and(*[unit_eq(self.items[p + k], s.items[k]) for k in range(m)])):
+                return p
+        return -1
+
     def m_index(self, sub, start=0, end=None):
         r = self.m_find(sub, start, end)
+        if r < 0:
+            raise ValueError("subsection not found")
+        return r
+
+    def m_rindex(self, sub, start=0, end=None):
+        r = self.m_rfind(sub, start, end)
         if r < 0:
             raise ValueError("subsection not found")
         return r
@@ -1769,6 +1792,27 @@ class SymSet:
         if p is True:
             return
         self.members.append((b_not(p), e))
+
+    def m_clear(self):
+        self.members = []
+
+    def m_discard(self, e):
+        self.members = [(b_and(g, b_not(sym_eq(x, e))), x) for g, x in self.members]
+
+    def m_remove(self, e):
+        if not bool(self._present(e)):
+            raise KeyError(e)
+        self.m_discard(e)
+
+    def m_copy(self):
+        return SymSet(self.members)
+
+    def m_update(self, *others):
+        for o in others:
+            for g, e in _set_members(o):
+                p = self._present(e)
+                if p is not True:
+                    self.members.append((b_and(g, b_not(p)), e))
 
     def length(self):
         n = 0
